@@ -69,8 +69,11 @@ def decimal_identity(rng):
     """a 30-bit identity with the decimal structure ITU-R M.585 gives to station classes (a
     maintainer's heuristic would key on these digits): 99MIDaXXX aids, 111MIDXXX aircraft, 00MIDXXXX
     coast, 0MIDXXXXX groups, 970/972/974 devices, 98MIDXXXX craft, 8MIDXXXXX handhelds, plain ships"""
+    return identity_of_class(rng, rng.randrange(9))
+
+IDENTITY_CLASSES = 9
+def identity_of_class(rng, c):
     mid = rng.randrange(201, 776)
-    c = rng.randrange(9)
     if c == 0: return 990000000 + mid * 10000 + rng.randrange(10) * 1000 + rng.randrange(1000)
     if c == 1: return 111000000 + mid * 1000 + rng.randrange(1000)
     if c == 2: return mid * 10000 + rng.randrange(10000)
